@@ -380,6 +380,8 @@ pub fn run_case(run: &mut Run, rng: &mut Rng, cfg: &Cfg, iters: usize, fault: bo
 thread_local! {
     /// directed scenarios: the target's distance of the next case (stable path)
     static FORCED_PATH: std::cell::Cell<Option<u8>> = const { std::cell::Cell::new(None) };
+    /// (rounds, distance): after that many published rounds the target is at the new distance (a route change)
+    static FORCED_CHANGE: std::cell::Cell<Option<(usize, u8)>> = const { std::cell::Cell::new(None) };
 }
 
 /// `plan`: forced (send outcomes, wait) for the first iterations of the case (directed scenarios)
@@ -411,6 +413,10 @@ pub fn run_case_plan(run: &mut Run, rng: &mut Rng, cfg: &Cfg, iters: usize, faul
     // route changes: the path length may change between rounds (C10: growing / shrinking paths)
     let mut route_changes = rng.chance(1, 3);
     if let Some(d) = forced_path { path_len = d; route_changes = false; }
+    let forced_change = FORCED_CHANGE.with(|c| c.take());
+    let mut rounds_published = 0usize;
+    // C10 after a route change that is followed by quiet rounds: (published length, true distance) of the last round
+    let mut last_length: Option<(u16, u8)> = None;
     let mut exact_answered_in_round = false;
     let mut route_flapped_in_round = false;
     let mut mon = Monitor { round_start: t0, last_outcome: 'o', first_iter: true, established: false, established_round: 0, ..Default::default() };
@@ -708,6 +714,15 @@ pub fn run_case_plan(run: &mut Run, rng: &mut Rng, cfg: &Cfg, iters: usize, faul
                     }
                     exact_answered_in_round = false;
                     route_flapped_in_round = false;
+                    rounds_published += 1;
+                    last_length = pr.split('/').nth(1).and_then(|x| x.parse::<u16>().ok()).map(|l| (l, path_len));
+                    if let Some((k, d2)) = forced_change {
+                        if rounds_published == k {
+                            path_len = d2;
+                            mon.established = false;
+                            run.count("route-change-forced");
+                        }
+                    }
                     if route_changes && rng.chance(1, 3) {
                         path_len = rng.range(1, u64::from(cfg.max) + 3) as u8;
                         mon.established = false;
@@ -734,6 +749,16 @@ pub fn run_case_plan(run: &mut Run, rng: &mut Rng, cfg: &Cfg, iters: usize, faul
                 run.op(op, out);
             }
         }
+    }
+    // C10 after a forced route change: the directed plan ends with quiet, loss-free rounds on the new path, so the last
+    // published round must report the target's new distance ("when the path is stable and the target answers, that
+    // length equals the target's true distance")
+    if let (Some((k, d2)), Some((l, d))) = (forced_change, last_length) {
+        if rounds_published >= k + 3 && d == d2 && l != u16::from(d2) {
+            run.fail("c10-length-after-route-change", format!("{}: the target moved to distance {d2} after round {k}; {} loss-free rounds later the published length is {l}",
+                cfg.line(t0), rounds_published - k));
+        }
+        run.count("c10:length-after-route-change-checked");
     }
     if !accepted { run.oracle_failures.truncate(failures_before); }
     clock::disable();
@@ -909,6 +934,29 @@ pub fn run(rng: &mut Rng, thorough: bool, corpus: &[String]) -> Run {
                 run.count("directed:tcp-reissue-near-target");
                 run_case_plan(&mut run, rng, &cfg, plan.len(), false, false, plan);
             }
+        }
+    }
+    // directed: the target moves (a route change between rounds): found at distance d1 for two rounds, then at d2 —
+    // further away or nearer — for five quiet rounds in which every probe is answered at once
+    for (d1, d2) in [(3u8, 5u8), (3, 4), (2, 7), (5, 3), (1, 2)] {
+        for proto in ['i', 'u', 't'] {
+            let mut cfg = gen_cfg(rng, thorough);
+            while !cfg.builder_ok() || cfg.proto != proto { cfg = gen_cfg(rng, thorough); }
+            cfg.first = 1; cfg.max = 12; cfg.inflight = 24; cfg.max_rounds = None;
+            // (a round in which the target is not found ends at the time limit: the closing wait exceeds it)
+            cfg.min_round = 1000; cfg.max_round = 1500; cfg.grace = 10;
+            let mut plan = VecDeque::new();
+            for round in 0..7 {
+                let d = if round < 2 { d1 } else { d2.max(d1) };
+                for _ in 0..=(d + 2) {
+                    plan.push_back((vec!['o', 'G'], 0));
+                }
+                plan.push_back((vec!['N'], 2000));
+            }
+            FORCED_PATH.with(|c| c.set(Some(d1)));
+            FORCED_CHANGE.with(|c| c.set(Some((2, d2))));
+            run.count("directed:target-moves");
+            run_case_plan(&mut run, rng, &cfg, plan.len(), false, false, plan);
         }
     }
     // directed: initial sequences at and beyond the builder's limit (whatever the builder accepts is run): a round of
